@@ -27,6 +27,8 @@ def step (line : String) : String :=
     | "relay" => relayCmd args
     | "frame" => frameCmd args
     | "udpq" => udpqCmd args
+    | "tcpconc" => tcpconcCmd args
+    | "framerelay" => framerelayCmd args
     | "qjudge" => qjudgeCmd args
     | "queueblk" => queueblkCmd args
     | _ => "bad-op"
